@@ -52,6 +52,28 @@ theorem operands_left_to_right (e : Expr) (es : List Expr) (σ : St) :
   simp only [Spec.exprs]
   try rfl
 
+/-- `l[i] <- e` evaluates the list, then the index, then the value, each exactly once, then stores — also when the
+value is itself an assignment (seeded change C05-e2 evaluated an inner assignment first) -/
+theorem indexed_assignment_order (l idx value : Expr) (listTok lb rb arrow : Token) (σ : St) :
+    Spec.expr cfg (f+1) (.set l listTok idx lb rb value arrow) σ =
+      (Spec.expr cfg f l σ).bind fun (lv, σ1) => (Spec.expr cfg f idx σ1).bind fun (kv, σ2) =>
+      (Spec.expr cfg f value σ2).bind fun (v, σ3) => indexWrite lv kv v listTok lb rb σ3 := by
+  simp only [Spec.expr]
+  try rfl
+
+/-- an element read evaluates the list, then the index -/
+theorem element_read_order (l k : Expr) (listTok lb rb : Token) (σ : St) :
+    Spec.expr cfg (f+1) (.access l listTok k lb rb) σ =
+      (Spec.expr cfg f l σ).bind fun (lv, σ1) => (Spec.expr cfg f k σ1).bind fun (kv, σ2) => indexRead lv kv listTok lb rb σ2 := by
+  simp only [Spec.expr]
+  try rfl
+
+/-- `x <- e` evaluates the value once, then binds -/
+theorem assignment_order (name : Str) (t1 t2 : Token) (value : Expr) (σ : St) :
+    Spec.expr cfg (f+1) (.assign name t1 value t2) σ = (Spec.expr cfg f value σ).bind fun (v, σ1) => assignVar name v σ1 := by
+  simp only [Spec.expr]
+  try rfl
+
 end spec
 
 /-! ## the operators -/
@@ -127,5 +149,27 @@ theorem binop_value_or_error (op : BinOp) (tok : Token) (a b : Value) (σ : St)
     | exact absurd rfl (ha _) | exact absurd rfl (hs _)
     | exact Or.inl ⟨_, rfl⟩ | exact Or.inr ⟨_, rfl⟩
     | (simp only [binop]; split <;> first | exact Or.inl ⟨_, rfl⟩ | exact Or.inr ⟨_, rfl⟩)
+
+/-- lists and native objects are never `==`, not even to themselves (the reference semantics has no identity
+comparison): seeded change C01-e2 made `a == a` TRUE for the same list object -/
+theorem list_never_equal (a : Nat) (v : Value) : langEq (.list a) v = false ∧ langEq v (.list a) = false := by
+  cases v <;> exact ⟨rfl, rfl⟩
+
+theorem obj_never_equal (a : Nat) (v : Value) : langEq (.obj a) v = false ∧ langEq v (.obj a) = false := by
+  cases v <;> exact ⟨rfl, rfl⟩
+
+/-- values of different sorts are never `==` -/
+theorem langEq_cross_sort (a b : Value) (h : langEq a b = true) :
+    (∃ x y, a = .num x ∧ b = .num y) ∨ (∃ s, a = .str s ∧ b = .str s) ∨ (∃ p, a = .bool p ∧ b = .bool p) ∨ (a = .null ∧ b = .null) := by
+  cases a <;> cases b <;> simp_all [langEq]
+
+/-- on text, truth values and NULL, `==` is reflexive and symmetric (on numbers it is the epsilon comparison, which fails
+for NaN and the infinities: `Thm/C16`) -/
+theorem langEq_refl_nonnum (v : Value) (h : (∀ x, v ≠ .num x) ∧ (∀ a, v ≠ .list a) ∧ (∀ a, v ≠ .obj a)) : langEq v v = true := by
+  cases v <;> simp_all [langEq]
+
+theorem equal_lists_compare_false (tok : Token) (a : Nat) (σ : St) :
+    binop .eqeq tok (.list a) (.list a) σ = .ok (.bool false, σ) ∧ binop .ne tok (.list a) (.list a) σ = .ok (.bool true, σ) :=
+  ⟨rfl, rfl⟩
 
 end Aplang
